@@ -8,6 +8,11 @@
 // the noise flag is raised (which the specification treats as a failure of ProlExact).  ps is the scale demanded by the
 // specification for the family (RefElementSanity!ProlScale).  The specification compares integers.
 //
+// Histories within one process (spec/TransferHist.tla): the runner hands the steps of one history to ONE harness process; "order"
+// selects which of assemble_prolongation / assemble_truncation / prolongate_vector comes first, the result carries a digest of the bit
+// patterns of everything the step produced (compared by TLC with the digest of the same step in a fresh process), and cases of
+// kind "rule" dump a refined cubature rule next to its base rule and the refinement of the reference cell (Transfer!RefinedRuleOK).
+//
 // The file is compiled into two binaries (simplex / hypercube shapes) through c18_transfer_s.cpp / c18_transfer_h.cpp.
 #include "vmesh.hpp"
 #include <kernel/geometry/mesh_permutation.hpp>
@@ -28,6 +33,8 @@
 #include <kernel/global/muxer.hpp>
 #include <control/asm/transfer_asm.hpp>
 #include <kernel/space/dof_mapping_renderer.hpp>
+#include <kernel/cubature/dynamic_factory.hpp>
+#include <kernel/cubature/refine_factory.hpp>
 #include <cstring>
 
 using namespace FEAT;
@@ -46,6 +53,28 @@ template<class Mesh_> void scale_mesh(Mesh_& m, int e)
 }
 // minimal domain level for the control-layer assembly (Control::Asm::asm_transfer_scalar only asks the level for its space)
 template<class Space_> struct CtlLevel { const Space_* space; };
+
+// FNV-1a over the bit patterns of what a step produced (history steps are compared with the fresh-process run of the same step)
+struct Digest
+{
+  unsigned long long h = 1469598103934665603ull;
+  void add(const void* p, std::size_t n) { const unsigned char* b = static_cast<const unsigned char*>(p); for(std::size_t i(0); i < n; ++i) { h ^= b[i]; h *= 1099511628211ull; } }
+  void add(const MatrixType& m)
+  {
+    const unsigned long long d[3] = {(unsigned long long)m.rows(), (unsigned long long)m.columns(), (unsigned long long)m.used_elements()};
+    add(d, sizeof(d));
+    if(m.rows() > 0) add(m.row_ptr(), sizeof(Index) * (m.rows() + 1));
+    if(m.used_elements() > 0) { add(m.col_ind(), sizeof(Index) * m.used_elements()); add(m.val(), sizeof(double) * m.used_elements()); }
+  }
+  void add(const VectorType& v) { const unsigned long long d = (unsigned long long)v.size(); add(&d, sizeof(d)); if(v.size() > 0) add(v.elements(), sizeof(double) * v.size()); }
+  vj::Value value() const
+  {
+    vj::Value a = vj::Value::array();
+    a.push(vj::Value((long long)(h & 0x1FFFFFull))); a.push(vj::Value((long long)((h >> 21) & 0x1FFFFFull))); a.push(vj::Value((long long)((h >> 42) & 0x3FFFFFull)));
+    return a;
+  }
+  void put(FILE* f) const { std::fprintf(f, "[%llu,%llu,%llu]", h & 0x1FFFFFull, (h >> 21) & 0x1FFFFFull, (h >> 42) & 0x3FFFFFull); }
+};
 
 struct Proj { bool noise = false; double worst = 0.0; };
 static long long project(double a, double ps, Proj& pj)
@@ -366,18 +395,32 @@ vj::Value run_transfer(const vj::Value& c, MeshT<Shape_>& cmesh, MeshT<Shape_>& 
   TrafoType ctrafo(cmesh), ftrafo(fmesh);
   Space_ cspace(ctrafo), fspace(ftrafo);
 
+  // integer test vectors (seeded)
+  unsigned long long st = 0x9E3779B97F4A7C15ull ^ (unsigned long long)c.get_int("seed", 1);
+  auto rnd = [&st]() { st = st * 6364136223846793005ull + 1442695040888963407ull; return int((st >> 33) % 9) - 4; };
+  const Index ngc = cspace.get_num_dofs(), ngf = fspace.get_num_dofs();
+  VectorType x(ngc), y(ngf), pxt(ngf), pxv(ngf), ry(ngc);
+  for(Index i(0); i < ngc; ++i) x(i, double(rnd()));
+  for(Index i(0); i < ngf; ++i) y(i, double(rnd()));
+
+  // the three numeric routines, in the order the case asks for (default: prolongation, truncation, vector prolongation): each of them
+  // requests the refined cubature rule on its own, so each of them can be the first one after another rule was used in this process
   MatrixType P;
   Assembly::SymbolicAssembler::assemble_matrix_2lvl(P, fspace, cspace);
   P.format();
-  Assembly::GridTransfer::assemble_prolongation_direct(P, fspace, cspace, cub);
-  MatrixType R = P.transpose();
   MatrixType T;
-  if(want_trunc)
+  if(want_trunc) { T.transpose(P); T.format(); }
+  pxv.format();
+  const std::string order = c.get_str("order", "PTV");
+  if(order.size() != 3 || order.find('P') == order.npos || order.find('T') == order.npos || order.find('V') == order.npos)
+    throw std::runtime_error("bad order " + order);
+  for(char op : order)
   {
-    T.transpose(P);
-    T.format();
-    Assembly::GridTransfer::assemble_truncation_direct(T, fspace, cspace, cub);
+    if(op == 'P') Assembly::GridTransfer::assemble_prolongation_direct(P, fspace, cspace, cub);
+    else if(op == 'T') { if(want_trunc) Assembly::GridTransfer::assemble_truncation_direct(T, fspace, cspace, cub); }
+    else Assembly::GridTransfer::prolongate_vector_direct(pxv, x, fspace, cspace, cub);
   }
+  MatrixType R = P.transpose();
   // bitwise transpose check (projection: one boolean)
   bool rbit = (R.rows() == P.columns() && R.columns() == P.rows() && R.used_elements() == P.used_elements());
   if(rbit)
@@ -392,24 +435,12 @@ vj::Value run_transfer(const vj::Value& c, MeshT<Shape_>& cmesh, MeshT<Shape_>& 
       }
   }
 
-  // integer test vectors (seeded)
-  unsigned long long st = 0x9E3779B97F4A7C15ull ^ (unsigned long long)c.get_int("seed", 1);
-  auto rnd = [&st]() { st = st * 6364136223846793005ull + 1442695040888963407ull; return int((st >> 33) % 9) - 4; };
-  const Index ngc = cspace.get_num_dofs(), ngf = fspace.get_num_dofs();
-  VectorType x(ngc), y(ngf), pxt(ngf), pxv(ngf), ry(ngc);
-  for(Index i(0); i < ngc; ++i) x(i, double(rnd()));
-  for(Index i(0); i < ngf; ++i) y(i, double(rnd()));
-
   // LAFEM::Transfer
   LAFEM::Transfer<MatrixType> transfer(P.clone(LAFEM::CloneMode::Deep), R.clone(LAFEM::CloneMode::Deep),
     want_trunc ? T.clone(LAFEM::CloneMode::Deep) : MatrixType());
   pxt.format(); ry.format();
   transfer.prol(pxt, x);
   transfer.rest(y, ry);
-  // matrix-free vector prolongation
-  pxv.format();
-  Assembly::GridTransfer::prolongate_vector_direct(pxv, x, fspace, cspace, cub);
-
   // function-level agreement (projection)
   long long fn_n = 0, fn_bad = 0, fn_orphan = 0; double fn_worst = 0;
   function_agreement<Shape_, Space_>(cmesh, fmesh, cspace, fspace, x.elements(), pxt.elements(), fn_n, fn_bad, fn_orphan, fn_worst);
@@ -501,6 +532,8 @@ vj::Value run_transfer(const vj::Value& c, MeshT<Shape_>& cmesh, MeshT<Shape_>& 
 
   // ---- control layer: Control::Asm::asm_transfer_scalar, twice into the same transfer object ----
   bool ctl_ok = true, ctl_repeat_ok = true; double ctl_dev = 0;
+  Digest dig;
+  dig.add(P); dig.add(R); dig.add(T); dig.add(pxv); dig.add(pxt); dig.add(ry); dig.add(tpx);
   if(want_trunc)
   {
     typedef CtlLevel<Space_> LevelT;
@@ -521,7 +554,10 @@ vj::Value run_transfer(const vj::Value& c, MeshT<Shape_>& cmesh, MeshT<Shape_>& 
     const double rep = std::max(max_entry_dev(ctr.get_mat_prol(), p1), std::max(max_entry_dev(ctr.get_mat_rest(), r1), max_entry_dev(ctr.get_mat_trunc(), t1)));
     ctl_repeat_ok = rep <= 1e-13;
     ctl_dev = std::max(ctl_dev, rep);
+    dig.add(p1); dig.add(t1); dig.add(ctr.get_mat_prol()); dig.add(ctr.get_mat_trunc());
   }
+  if(x_done) { dig.add(XCP); dig.add(XF); }
+  if(xs_done) dig.add(XS);
 
   // ---- dump ----
   if(c.get_int("scale", 0) != 0) { scale_mesh(cmesh, -(int)c.get_int("scale", 0)); scale_mesh(fmesh, -(int)c.get_int("scale", 0)); }
@@ -572,12 +608,14 @@ vj::Value run_transfer(const vj::Value& c, MeshT<Shape_>& cmesh, MeshT<Shape_>& 
   std::fputs(",\"XS\":", f); if(xs_done) put_rows(f, XS, 1.0, pxs); else std::fputs("[]", f);
   std::fprintf(f, ",\"xcnoise\":%s,\"xfnoise\":%s,\"xsnoise\":%s,\"xf_ok\":%s,\"xs_fn_ok\":%s", pxc.noise ? "true" : "false", pxf.noise ? "true" : "false",
     pxs.noise ? "true" : "false", xf_ok ? "true" : "false", xs_fn_ok ? "true" : "false");
+  std::fputs(",\"order\":", f); put_str(f, order); std::fputs(",\"cub\":", f); put_str(f, cub); std::fputs(",\"dig\":", f); dig.put(f);
   std::fprintf(f, ",\"pnoise\":%s,\"tnoise\":%s,\"vnoise\":%s,\"xnoise\":%s,\"rnoise\":%s,\"rbit\":%s}\n", (pp.noise || pr.noise) ? "true" : "false",
     pt.noise ? "true" : "false", pv.noise ? "true" : "false", pxt_.noise ? "true" : "false", pry.noise ? "true" : "false", rbit ? "true" : "false");
   std::fclose(f);
   if(!exact) return vh::bad("a mesh coordinate left the integer domain at scale 2^K");
   vj::Value r = vh::ok();
   r["dev_p"] = pp.worst; r["dev_tp"] = pt.worst; r["dev_v"] = pv.worst; r["dev_fn"] = fn_worst; r["vdev"] = vdev; r["rdev"] = rdev; r["xc_dev"] = xc_dev; r["xf_dev"] = xf_dev; r["dev_xs"] = pxs.worst; r["ctl_dev"] = ctl_dev; r["ngf"] = (long long)ngf; r["nnz"] = (long long)P.used_elements();
+  r["dig"] = dig.value();
   return r;
 }
 
@@ -640,9 +678,98 @@ template<class Shape_> vj::Value run_shape(const vj::Value& c)
   return vh::bad("element family not bound in this harness: " + el);
 }
 
+// ---------------------------------------------------------------------------------------------------------------
+// kind "rule": the refined cubature rule itself.  "cub" = "refine:<base>", obtained by name through the DynamicFactory (route
+// "name") or from the base rule through Cubature::RefineFactoryCore::create (route "core", the call of the 2-level assembly), for
+// the rule type the assembly uses.  Dumped: both rules projected to integers (points at scale 2^20, weights at scale 2^16; the
+// specification allows for the rounding), the one-cell mesh and its refinement by the real StandardRefinery: TLC derives the
+// child cells in reference coordinates from the refinement topology and requires point c*n+k of the refined rule to be the image
+// of base point k in child c, its weight to be scaled by the volume fraction (Transfer!RefinedRuleOK).
+// ---------------------------------------------------------------------------------------------------------------
+template<class Shape_> vj::Value run_rule(const vj::Value& c)
+{
+  typedef MeshT<Shape_> MeshType;
+  typedef Trafo::Standard::Mapping<MeshType> TrafoType;
+  typedef typename TrafoType::template Evaluator<Shape_, double>::Type TrafoEval;
+  typedef typename Assembly::Intern::CubatureTraits<TrafoEval>::RuleType RuleType;
+  constexpr int dim = Shape_::dimension;
+  const std::string name = c["cub"].as_str(), base = c["base"].as_str(), route = c.get_str("route", "name");
+  std::unique_ptr<MeshType> cmesh = build_raw<Shape_>(c["src"]["raw"]);
+  std::unique_ptr<MeshType> fmesh;
+  { Geometry::StandardRefinery<MeshType> ref(*cmesh); fmesh = ref.make_unique(); }
+  const int K = std::max(min_scale(*cmesh, 30), min_scale(*fmesh, 30));
+  if(K < 0) return vh::bad("reference cell mesh is not dyadic");
+
+  RuleType rb, rr;
+  if(!Cubature::DynamicFactory(base).create(rb)) return vh::bad("base rule refused: " + base);
+  if(route == "core") Cubature::RefineFactoryCore::create(rr, rb);
+  else if(!Cubature::DynamicFactory(name).create(rr)) return vh::bad("refined rule refused: " + name);
+
+  const double SP = 1048576.0, SW = 65536.0;
+  Digest dig;
+  bool bad_num = false;
+  auto put_rule = [&](FILE* f, const RuleType& r, const char* kp, const char* kw)
+  {
+    std::fprintf(f, ",\"%s\":[", kp);
+    for(int k(0); k < r.get_num_points(); ++k)
+    {
+      std::fputs(k ? ",[" : "[", f);
+      for(int a(0); a < dim; ++a)
+      {
+        const double v = double(r.get_coord(k, a)); if(!(std::fabs(v) <= 4.0)) bad_num = true;
+        dig.add(&v, sizeof(v));
+        std::fprintf(f, a ? ",%lld" : "%lld", (long long)std::nearbyint(v * SP));
+      }
+      std::fputc(']', f);
+    }
+    std::fprintf(f, "],\"%s\":[", kw);
+    for(int k(0); k < r.get_num_points(); ++k)
+    {
+      const double w = double(r.get_weight(k)); if(!(std::fabs(w) <= 64.0)) bad_num = true;
+      dig.add(&w, sizeof(w));
+      std::fprintf(f, k ? ",%lld" : "%lld", (long long)std::nearbyint(w * SW));
+    }
+    std::fputc(']', f);
+  };
+  const std::string out = c["out"].as_str();
+  FILE* f = std::fopen(out.c_str(), "w");
+  if(!f) throw std::runtime_error("cannot write " + out);
+  std::fputs("{\"id\":", f); put_str(f, c["id"].as_str());
+  std::fprintf(f, ",\"kind\":\"rule\",\"fam\":\"%s\",\"dim\":%d,\"K\":%d,\"cub\":", Fam<Shape_>::name(), dim, K); put_str(f, name);
+  std::fputs(",\"base\":", f); put_str(f, base); std::fputs(",\"route\":", f); put_str(f, route);
+  std::fputs(",\"levels\":[", f);
+  std::vector<std::pair<std::string, const Geometry::MeshPart<MeshType>*>> noparts;
+  bool exact = put_level(f, *cmesh, K, noparts, false);
+  std::fputc(',', f);
+  exact = put_level(f, *fmesh, K, noparts, false) && exact;
+  std::fprintf(f, "],\"n\":%d,\"nr\":%d,\"sp\":%lld,\"sw\":%lld", rb.get_num_points(), rr.get_num_points(), (long long)SP, (long long)SW);
+  put_rule(f, rb, "bp", "bw");
+  put_rule(f, rr, "rp", "rw");
+  std::fputs(",\"rname\":", f); put_str(f, rr.get_name());
+  std::fprintf(f, ",\"range_ok\":%s,\"dig\":", bad_num ? "false" : "true"); dig.put(f);
+  std::fputs("}\n", f);
+  std::fclose(f);
+  if(!exact) return vh::bad("a mesh coordinate left the integer domain at scale 2^K");
+  vj::Value r = vh::ok();
+  r["dig"] = dig.value(); r["n"] = (long long)rb.get_num_points(); r["nr"] = (long long)rr.get_num_points();
+  return r;
+}
+
 vj::Value run_case(const vj::Value& c)
 {
   const std::string fam = c["fam"].as_str(); const int dim = (int)c["dim"].as_int();
+  if(c.get_str("kind", "xfer") == "rule")
+  {
+#ifndef C18_ONLY_HYPERCUBE
+    if(fam == "simplex" && dim == 2) return run_rule<Shape::Simplex<2>>(c);
+    if(fam == "simplex" && dim == 3) return run_rule<Shape::Simplex<3>>(c);
+#endif
+#ifndef C18_ONLY_SIMPLEX
+    if(fam == "hypercube" && dim == 2) return run_rule<Shape::Hypercube<2>>(c);
+    if(fam == "hypercube" && dim == 3) return run_rule<Shape::Hypercube<3>>(c);
+#endif
+    return vh::bad("unsupported shape in this binary");
+  }
 #ifndef C18_ONLY_HYPERCUBE
   if(fam == "simplex" && dim == 2) return run_shape<Shape::Simplex<2>>(c);
   if(fam == "simplex" && dim == 3) return run_shape<Shape::Simplex<3>>(c);
